@@ -54,3 +54,12 @@ package jwt
 //@   ensures [C15.audience-comparison] typeis(m["aud"], string) ==> result == (unbox(m["aud"], string) == cmp)
 //@   ensures [C15.audience-comparison] !("aud" in m) ==> !result
 //@   invariant loop#1 true
+
+// ---------------------------------------------------------------- C04 / C06: claim defaults
+// WithDefaults fills in iat and iss only. In particular it never pins a jti: ToMap draws a fresh jti for every token, which
+// is what makes two access tokens of one refresh-token family differ even when issued within the same second.
+//@ func (*JWTClaims).WithDefaults
+//@   requires c != nil
+//@   modifies c.IssuedAt, c.Issuer
+//@   ensures [C04.claim-defaults-leave-jti-fresh] c.JTI == old(c.JTI) && c.ExpiresAt == old(c.ExpiresAt) && c.Subject == old(c.Subject)
+//@   ensures [C04.claim-defaults-leave-jti-fresh] c.IssuedAt == (old(c.IssuedAt) == 0 ? iat : old(c.IssuedAt)) && c.Issuer == (old(c.Issuer) == "" ? issuer : old(c.Issuer))
